@@ -1,6 +1,7 @@
 //! vh — conformance harness binding the TLA+ specifications in /verif/spec to the real
 //! gm-quic code.  Sub-commands replay TLC-generated behaviours into real objects and record
 //! NDJSON traces that the Trace_*.tla specifications validate.
+mod pncodec;
 mod rcvdjournal;
 mod recvbuf;
 mod sendbuf;
@@ -20,6 +21,7 @@ fn main() {
         "sentjournal-replay" => sentjournal::replay(rest),
         "rcvdjournal-replay" => rcvdjournal::replay(rest),
         "rcvdjournal-random" => rcvdjournal::random(rest),
+        "pncodec" => pncodec::run(rest),
         "recvbuf-replay" => recvbuf::replay(rest),
         "recvbuf-random" => recvbuf::random(rest),
         other => {
